@@ -123,6 +123,21 @@ def deep_eq(a, b, path="$"):
             if d:
                 return d
         return None
+    def _timekind(v):
+        dt = getattr(v, "dtype", None)
+        return dt.kind if (dt is not None and dt.kind in "mM") else None
+    if _timekind(a) or _timekind(b):
+        # points in time / durations are not numbers: both sides must be numpy times of the same kind, and equal
+        if _timekind(a) != _timekind(b):
+            return "%s: %r vs %r (a numpy time on one side only)" % (path, a, b)
+        av, bv = np.asarray(a), np.asarray(b)
+        if bool(np.isnat(av)) != bool(np.isnat(bv)) or (not bool(np.isnat(av)) and av != bv):
+            return "%s: %r vs %r" % (path, a, b)
+        return None
+    if isinstance(a, np.longdouble) or isinstance(b, np.longdouble):
+        if not (np.longdouble(a) == np.longdouble(b) or (a != a and b != b)):
+            return "%s: %r vs %r (extended precision)" % (path, a, b)
+        return None
     if isinstance(a, np.ndarray):
         a = a.item()
     if isinstance(b, np.ndarray):
